@@ -299,19 +299,19 @@ pub fn run(ctx: &Ctx) {
         }
         let set = |v: &[&str]| -> Option<std::collections::HashSet<String>> { Some(v.iter().map(|s| s.to_string()).collect()) };
         let mut cfgs: Vec<(String, ProcessedDltFilterConfig)> = vec![];
-        let base = || ProcessedDltFilterConfig { min_log_level: None, app_ids: None, ecu_ids: None, context_ids: None, app_id_count: 0, context_id_count: 0 };
-        cfgs.push(("keep all".into(), base()));
+        let base = || crate::common::PF { min_log_level: None, app_ids: None, ecu_ids: None, context_ids: None, app_id_count: 0, context_id_count: 0 };
+        cfgs.push(("keep all".into(), base().build()));
         for (i, l) in [dlt_core::dlt::LogLevel::Fatal, dlt_core::dlt::LogLevel::Error, dlt_core::dlt::LogLevel::Warn, dlt_core::dlt::LogLevel::Info, dlt_core::dlt::LogLevel::Debug, dlt_core::dlt::LogLevel::Verbose].into_iter().enumerate() {
-            cfgs.push((format!("min level {}", i + 1), ProcessedDltFilterConfig { min_log_level: Some(l), ..base() }));
+            cfgs.push((format!("min level {}", i + 1), crate::common::PF { min_log_level: Some(l), ..base() }.build()));
         }
         for e in [vec!["ECU1"], vec!["STOR"], vec![""], vec!["ECU1", "STOR", ""], vec!["NOPE"], vec![]] {
-            cfgs.push((format!("ecu ids {:?}", e), ProcessedDltFilterConfig { ecu_ids: set(&e), ..base() }));
+            cfgs.push((format!("ecu ids {:?}", e), crate::common::PF { ecu_ids: set(&e), ..base() }.build()));
         }
         for a in [vec!["APP"], vec!["APP", "AP", "A", "é", "UN", "NW", ""], vec!["NOPE"]] {
-            cfgs.push((format!("app ids {:?}", a), ProcessedDltFilterConfig { app_ids: set(&a), app_id_count: 1, ..base() }));
-            cfgs.push((format!("context ids {:?} count 9", a), ProcessedDltFilterConfig { context_ids: set(&a), context_id_count: 9, ..base() }));
+            cfgs.push((format!("app ids {:?}", a), crate::common::PF { app_ids: set(&a), app_id_count: 1, ..base() }.build()));
+            cfgs.push((format!("context ids {:?} count 9", a), crate::common::PF { context_ids: set(&a), context_id_count: 9, ..base() }.build()));
         }
-        cfgs.push(("everything at once".into(), ProcessedDltFilterConfig { min_log_level: Some(dlt_core::dlt::LogLevel::Verbose), app_ids: set(&["APP", "AP", "A", "é", "UN", "NW", ""]), ecu_ids: set(&["ECU1", "STOR", ""]), context_ids: set(&["CTX", "", "C", "€", "KN", "TR"]), app_id_count: 0, context_id_count: 0 }));
+        cfgs.push(("everything at once".into(), crate::common::PF { min_log_level: Some(dlt_core::dlt::LogLevel::Verbose), app_ids: set(&["APP", "AP", "A", "é", "UN", "NW", ""]), ecu_ids: set(&["ECU1", "STOR", ""]), context_ids: set(&["CTX", "", "C", "€", "KN", "TR"]), app_id_count: 0, context_id_count: 0 }.build()));
         // storage variants: none, id equal to the header's, another id, blank id, non-ASCII id
         let storages: Vec<Option<&str>> = vec![None, Some("ECU1"), Some("STOR"), Some(""), Some("é1")];
         let sp = Space::new(&[seeds.len(), storages.len(), cfgs.len(), 2]);
